@@ -652,10 +652,18 @@ model("retain_mut", "vec")(vec_retain)
 
 # ---------------------------------------------------------------------------- rayon: combinators that run their closure(s) once, and the parallel for_each
 
+def _close(cx, results):
+    """Mark the end of what ran inside the combinator (paths that return from it)."""
+    for r in results:
+        if r[0] == "val":
+            r[2].events.append(("once-end", cx.site))
+    return results
+
+
 @model("install", "rayon")
 def rayon_install(ev, cx, args):
     cx.path.events.append(("once", cx.site, "install", args[0]))
-    return _apply(ev, cx, args[-1], (), cx.env, cx.path, "f", len(args) - 1)
+    return _close(cx, _apply(ev, cx, args[-1], (), cx.env, cx.path, "f", len(args) - 1))
 
 
 @model("spawn", "rayon")
@@ -664,7 +672,7 @@ def rayon_spawn(ev, cx, args):
     out = []
     for r in _apply(ev, cx, args[-1], (), cx.env, cx.path, "f", len(args) - 1):
         out.append(("val", r[1], r[2], UNIT) if r[0] == "val" else r)
-    return out
+    return _close(cx, out)
 
 
 @model("join", "rayon")
@@ -678,7 +686,18 @@ def rayon_join(ev, cx, args):
             continue
         for r2 in _apply(ev, cx, fb, (), r[1], r[2], "b", len(args) - 1):
             out.append(("val", r2[1], r2[2], ("agg", "tuple", "tuple", (r[3], r2[3]), ())) if r2[0] == "val" else r2)
-    return out
+    return _close(cx, out)
+
+
+@model("scope", "rayon")
+def rayon_scope(ev, cx, args):
+    """rayon::scope(|s| ..) runs the closure (on a pool thread) before returning."""
+    cx.path.events.append(("once", cx.site, "scope", args[0] if len(args) > 1 else None))
+    scope_tok = ("call", (cx.fid, (cx.bb, "scope-token")), ())
+    return _close(cx, _apply(ev, cx, args[-1], (scope_tok,), cx.env, cx.path, "f", len(args) - 1))
+
+
+model("in_place_scope", "rayon")(rayon_scope)
 
 
 @model("for_each", "rayon")
